@@ -56,6 +56,19 @@ def p_report(t):
     return v
 
 
+def p_sparse(t):
+    """Reports at sparse steps (containers that lose insertion order must not matter)."""
+    x = t.suggest_float("x", 0, 1)
+    v = 0.0
+    for step in (0, 10, 20, 30, 50, 70):
+        # every other trial deteriorates late, so that trials are pruned after five or six reports
+        v = abs(x - 0.5) + (2.0 if (t.number % 2 == 1 and step >= 50) else 0.0) + step / 1000
+        t.report(v, step)
+        if t.should_prune():
+            raise optuna.TrialPruned()
+    return v
+
+
 def p_fail(t):
     x = t.suggest_float("x", 0, 1)
     if t.number == 2:
@@ -109,6 +122,7 @@ PROGRAMS: dict[str, tuple[Callable, int, bool, dict | None]] = {
     "plain": (p_plain, 1, False, None),
     "cond": (p_cond, 1, False, None),
     "report": (p_report, 1, False, None),
+    "sparse": (p_sparse, 1, False, None),
     "fail": (p_fail, 1, False, None),
     "mixed": (p_mixed, 1, True, {"a": [0.0, 0.5, 1.0], "b": [0, 2, 6], "c": [None, True, "s"]}),
     "log": (p_log, 1, False, None),
@@ -166,7 +180,7 @@ def compatible(sampler: str, prog: str, pruner: str) -> bool:
         return False
     if n_obj > 1 and pruner != "Nop":
         return False  # pruning is not supported for multi-objective studies
-    if prog != "report" and pruner != "Nop":
+    if prog not in ("report", "sparse") and pruner != "Nop":
         return False  # pruners only matter to the program that reports
     if sampler == "GP" and (n_obj > 1 and False):
         return False
@@ -325,7 +339,7 @@ def run(tier: str, replay: str | None = None) -> int:
                     if sampler == "GP" and (seed == 1 or prog not in ("plain", "mixed", "multi")):
                         continue
                     storages = list(STORAGES_FAST)
-                    if tier == "thorough" or (seed == 0 and prog in ("plain", "report", "multi") and pruner in ("Nop", "Median")):
+                    if tier == "thorough" or (seed == 0 and prog in ("plain", "report", "sparse", "multi") and pruner in ("Nop", "Median")):
                         storages += STORAGES_SLOW
                     if sampler == "GP":
                         storages = ["jfile-sym+other", "grpc(mem)"]
